@@ -66,6 +66,7 @@ type Corpus struct {
 	BldWall float64   `json:"build_wall_s"`
 	// Unattributed holds build output lines that could not be tied to a design.
 	Unattributed []string `json:"unattributed,omitempty"`
+	EnvFailure   bool     `json:"env_failure,omitempty"` // a build step failed for lack of disk/memory: results unusable, never cached
 }
 
 // Options control Build.
@@ -425,6 +426,9 @@ func Build(family string, specs []*spec.Spec, opt Options) (*Corpus, error) {
 		}
 	}
 	c.BldWall = time.Since(t1).Seconds()
+	if c.EnvFailure {
+		return nil, fmt.Errorf("environment failure while building family %s (not cached): %s", family, strings.Join(c.Unattributed, " | "))
+	}
 	b, _ := json.MarshalIndent(c, "", " ")
 	if err := os.WriteFile(marker, b, 0o644); err != nil {
 		return nil, err
@@ -452,6 +456,10 @@ func tail(s string, n int) string {
 
 var designRe = regexp.MustCompile(`\b(d\d{4})/`)
 
+// envFailureRe recognises build output caused by the environment (disk, memory, descriptors),
+// which must never be read as a diagnostic about the generated code.
+var envFailureRe = regexp.MustCompile(`no space left on device|cannot allocate memory|out of memory|signal: killed|too many open files|input/output error|resource temporarily unavailable`)
+
 func (c *Corpus) attribute(out string) {
 	by := map[string]*Design{}
 	for _, d := range c.Designs {
@@ -461,6 +469,14 @@ func (c *Corpus) attribute(out string) {
 		line = strings.TrimRight(line, " \t")
 		if line == "" || strings.HasPrefix(line, "#") || strings.HasPrefix(line, "\t") || strings.HasPrefix(line, "  ") {
 			continue // blank, package header, or continuation line of a multi-line diagnostic
+		}
+		if envFailureRe.MatchString(line) {
+			// the machine ran out of a resource: says nothing about the generated code
+			c.EnvFailure = true
+			if len(c.Unattributed) < 100 {
+				c.Unattributed = append(c.Unattributed, "ENVIRONMENT: "+line)
+			}
+			continue
 		}
 		m := designRe.FindStringSubmatch(line)
 		if m != nil && by[m[1]] != nil {
